@@ -25,9 +25,12 @@ class SetEncoder(encoder.SetEncoder):
         else:
             compType = asn1Spec
 
-        if compType.typeId == univ.Choice.typeId and not compType.tagSet:
+        # an untagged CHOICE is ordered by the tag actually encoded: that of
+        # the chosen alternative, which may be an untagged CHOICE again
+        while compType.typeId == univ.Choice.typeId and not compType.tagSet:
             if asn1Spec is None:
-                return SetEncoder._tagSortKey(component.getComponent().tagSet)
+                component = compType = component.getComponent()
+
             else:
                 # TODO: move out of sorting key function
                 names = [namedType.name for namedType in asn1Spec.componentType.namedTypes
@@ -36,12 +39,10 @@ class SetEncoder(encoder.SetEncoder):
                     raise error.PyAsn1Error(
                         '%s components for Choice at %r' % (len(names) and 'Multiple ' or 'None ', component))
 
-                # TODO: support nested CHOICE ordering
-                return SetEncoder._tagSortKey(
-                    asn1Spec.componentType[names[0]].asn1Object.tagSet)
+                component = component[names[0]]
+                asn1Spec = compType = asn1Spec.componentType[names[0]].asn1Object
 
-        else:
-            return SetEncoder._tagSortKey(compType.tagSet)
+        return SetEncoder._tagSortKey(compType.tagSet)
 
 
 TAG_MAP = encoder.TAG_MAP.copy()
